@@ -70,7 +70,7 @@ def sizes_for(mtu):
     return sorted(s)
 
 
-def gen_size_case(real, rng, cid, mtu, lengths, loss_plan, later=(), lossy=None):
+def gen_size_case(real, rng, cid, mtu, lengths, loss_plan, later=(), lossy=None, retry=-1):
     """guaranteed sends of the given lengths from a to b; loss_plan(k, direction) -> lost? for emission k; then healed"""
     lines = ["case %s" % cid]
     glog = []
@@ -100,10 +100,10 @@ def gen_size_case(real, rng, cid, mtu, lengths, loss_plan, later=(), lossy=None)
         t0 = t
         for i, n in enumerate(lengths):
             seed += 1
-            emit("send a len=%d seed=%d retry=-1 cb=%d" % (n, seed, i + 1))
+            emit("send a len=%d seed=%d retry=%d cb=%d" % (n, seed, retry, i + 1))
         k = {"a": 0, "b": 0}
         steps = 0
-        lossy_until = t + (lossy or rng.choice([600, 1500, 3000]))
+        lossy_until = t + (rng.choice([600, 1500, 3000]) if lossy is None else lossy)
         while steps < 700:
             steps += 1
             t += 17
